@@ -2,7 +2,12 @@
   Drive/Errors.lean — driver suite `errors` (C18).
 
   Input  {cls, kw, ff, mode, msg?, re}:
-    cls   flat class declaration (wire), fields in signature order
+    cls   class declaration (wire), fields in signature order (flat, or any declaration: collections at any
+          depth, nested / inline structures)
+    clsDef  (deser cases) the same class with every nested class's fields in DEFINITION order, for `deser`
+    via / viaName / baseName  a class typedpy derived (Partial / AllFieldsRequired / Extend / Omit / Pick):
+          kind, explicit name, base class name — the model name is Lean `derivedName`
+    keepUndefined  keep_undefined as deserialize_structure_internal receives it
     kw    the keyword arguments as the real constructor received them (for `deser` cases: the
           lifted arguments, used only for `invalid`)
     ff    Structure.failing_fast()
@@ -24,6 +29,14 @@
     phase1   (deser) supplied fields the model of `deserialize_single_field` rejects;
              deserCollected = what collect-all deserialization reports (phase one's if any, else the
              constructor's)
+    deep     (deser, class outside the flat domain) accept / reject, exception class, constructor arguments and
+             `invalid` come from `deser` (Sem/Deser.lean), the sites from `p1SitesD` / `dHead`
+    path     every field is in the path model's domain (`isPathDecl`)
+    cmp      per constructor site and real text: headOk, shapeOk, problemOk (the theorems' side condition
+             `goodTexts` on the real text), templateOk (typedpy's problem templates; evidence only)
+    p1VsDeser  the flat phase-one model and `deser` agree on this (flat) document
+    clsName / clsNameModel / clsNameWordReal / clsNameWordModel  class name of the heads, the model's name for
+             a derived class, and whether each is in the field group
     readable the helper model on `msg`: {"raises": true} | {"single": info} | {"many": [info]}
   The JSON codec oracle is instantiated with Lean.Data.Json here (trusted glue).
 -/
@@ -47,11 +60,12 @@ def loadsImpl (t : Text) : Loaded :=
   | .ok (.obj kvs) => .strs (kvs.toList.map fun kv => kv.1.toList)
   | .ok _ => .raises
 
-/-- `alnum`: the non-ASCII characters of the case for which Python's `str.isalnum()` holds -/
-def codec (alnum : List Char) : Codec :=
+/-- the field group is fully modelled since /repo 18c6055 (`pyFieldWord`); `alnum` (the harness's
+    `str.isalnum()` answers) is no longer consulted -/
+def codec (_alnum : List Char) : Codec :=
   { dumps := fun ts => (Json.arr (ts.map fun t => Json.str (ofText t)).toArray).compress.toList
     loads := loadsImpl
-    word := fun c => asciiWord c || alnum.contains c }
+    word := pyFieldWord }
 
 def optText : Option Text → Json
   | none => .null
